@@ -292,6 +292,8 @@ def gen_history(rng, maxlen=12, from_ctor=False):
                 if have and rng.random() < 0.6:
                     # mostly the sizes the dataset already has for x0, x1, ...
                     shape = [len(sim.axis(a["name"])[2]) if a["name"] in sim.names() else len(a["labels"]) for a in raw_axes(shape)]
+                if raw == "list" and 0 in shape[:-1]:
+                    raw = "ndarray"         # (a nested list cannot express a shape such as (0, 3): it is just [])
                 axs = raw_axes(shape)
                 bad = None
                 for i, a in enumerate(axs):
